@@ -37,7 +37,8 @@ def step (line : String) : String :=
     | some src =>
       (match Lz4Ref.decompress src with
        | none => "spec=-1"
-       | some r => "spec=" ++ toString r.length ++ " out=" ++ hexBytes r.toArray)
+       | some r => "spec=" ++ toString r.length ++ " final=" ++ (match Lz4Ref.finalLits src src.size 0 with | some k => toString k | none => "-") ++
+           " out=" ++ hexBytes r.toArray)
     | none => "bad-op"
   | ["tbl", h, th, f] =>
     match parseHexUnits 2 h, parseHexNat th, parseHexNat f with
